@@ -69,6 +69,35 @@ func (k *c09KS) AuthRole(authid string) (string, error) {
 }
 func (k *c09KS) Provider() string { return "vsim-ks" }
 
+// c09BypassKS is the key store as a BypassKeyStore: it recognises clients that present the
+// tracking cookie handed out at an earlier SUCCESSFUL authentication (details.transport.auth,
+// filled in by the transport - here by the harness when it attaches the connection).
+type c09BypassKS struct {
+	*c09KS
+	cookies map[string]string // cookie -> authid it was issued to
+}
+
+func cookieOf(details wamp.Dict, key string) string {
+	v, err := wamp.DictValue(details, []string{"transport", "auth", key})
+	if err != nil {
+		return ""
+	}
+	s, _ := v.(string)
+	return s
+}
+
+func (k *c09BypassKS) AlreadyAuth(authid string, details wamp.Dict) bool {
+	ck := cookieOf(details, "cookie")
+	return ck != "" && k.cookies[ck] == authid
+}
+
+func (k *c09BypassKS) OnWelcome(authid string, welcome *wamp.Welcome, details wamp.Dict) error {
+	if next := cookieOf(details, "nextcookie"); next != "" {
+		k.cookies[next] = authid
+	}
+	return nil
+}
+
 // transcript of one honest handshake, visible to the adversary.
 type c09Tap struct {
 	user, method string
@@ -142,6 +171,18 @@ func runC09(c *Ctx) {
 		}
 		ks.users[name] = u
 	}
+	// in a third of the runs the key store recognises tracking cookies (BypassKeyStore)
+	bypass := g.Chance(1, 3)
+	var store auth.KeyStore = ks
+	if bypass {
+		store = &c09BypassKS{c09KS: ks, cookies: map[string]string{}}
+	}
+	transportOf := func(cookie, next string) wamp.Dict {
+		if !bypass {
+			return nil
+		}
+		return wamp.Dict{"auth": wamp.Dict{"cookie": cookie, "nextcookie": next}}
+	}
 	authTO := time.Duration([]int{1, 2, 5, 30, 60}[g.Intn(5)]) * time.Second
 	allMethods := []string{"ticket", "wampcra", "cryptosign"}
 	var methods []string
@@ -151,11 +192,11 @@ func runC09(c *Ctx) {
 			methods = append(methods, m)
 			switch m {
 			case "ticket":
-				authrs = append(authrs, auth.NewTicketAuthenticator(ks, authTO))
+				authrs = append(authrs, auth.NewTicketAuthenticator(store, authTO))
 			case "wampcra":
-				authrs = append(authrs, auth.NewCRAuthenticator(ks, authTO))
+				authrs = append(authrs, auth.NewCRAuthenticator(store, authTO))
 			case "cryptosign":
-				authrs = append(authrs, auth.NewCryptoSignAuthenticator(ks, authTO))
+				authrs = append(authrs, auth.NewCryptoSignAuthenticator(store, authTO))
 			}
 		}
 	}
@@ -239,6 +280,9 @@ func runC09(c *Ctx) {
 	}
 	for i := 0; i < na; i++ {
 		p := plan{adversary: true, user: g.Pick("alice", "bob"), method: pickMethod(), kind: g.Intn(8), forged: forge(), yields: g.Intn(60)}
+		if bypass && g.Chance(1, 3) {
+			p.kind = 8
+		}
 		plans = append(plans, p)
 	}
 	var sample []string
@@ -276,7 +320,7 @@ func runC09(c *Ctx) {
 			for k := 0; k < p.yields; k++ {
 				simrt.Yield("hswait")
 			}
-			s.StartAttach(nil)
+			s.StartAttach(transportOf("", "next-"+name))
 			hello := wamp.Dict{"roles": AllFeatures(), "authmethods": wamp.List{p.method}, "authid": p.user}
 			for k, v := range p.forged {
 				hello[k] = v
@@ -335,6 +379,32 @@ func runC09(c *Ctx) {
 					return
 				}
 				finish()
+				if bypass && out.welcome != nil && p.yields%3 == 0 && p.method != "cryptosign" {
+					// comes back on a new connection with the cookie its successful handshake was handed:
+					// recognised without a challenge - under the same, router-assigned identity
+					c.Probe("honest_relogin_by_cookie")
+					s2 := w.NewSess(name+"b", "r1", false, 8, nil)
+					s2.StartAttach(transportOf("next-"+name, "next-"+name+"b"))
+					out2 := &c09Outcome{who: name + "b", user: p.user, method: p.method, sess: s2, knows: true, intime: true}
+					outs = append(outs, out2)
+					if !s2.Send(&wamp.Hello{Realm: "r1", Details: hello}) {
+						return
+					}
+					m := recvWithin(s2, 3*time.Minute)
+					if ch2, ok := m.(*wamp.Challenge); ok {
+						s2.Send(respond(u, p.method, ch2))
+						m = recvWithin(s2, 3*time.Minute)
+					} else if _, ok := m.(*wamp.Welcome); ok {
+						c.Probe("welcomed_by_cookie_without_challenge")
+					}
+					if wl, ok := m.(*wamp.Welcome); ok {
+						out2.welcome = wl
+						s2.Welcome, s2.ID, s2.Joined = wl, wl.ID, true
+						s2.StartDrain()
+					} else if ab, ok := m.(*wamp.Abort); ok {
+						s2.Abort = ab
+					}
+				}
 				return
 			}
 			// ---- adversary ----
@@ -415,6 +485,35 @@ func runC09(c *Ctx) {
 					}
 				}
 				finish()
+			case 8: // fails a handshake of its own, then comes back with the cookie that handshake was handed
+				c.Fault("adv_cookie_of_failed_handshake")
+				s.Send(&wamp.Hello{Realm: "r1", Details: hello})
+				if _, ok := recvWithin(s, 3*time.Minute).(*wamp.Challenge); ok {
+					s.Send(&wamp.Authenticate{Signature: "no-idea", Extra: wamp.Dict{}})
+				}
+				finish()
+				if out.welcome != nil || !bypass {
+					return
+				}
+				s2 := w.NewSess(name+"b", "r1", false, 8, nil)
+				s2.StartAttach(transportOf("next-"+name, "next-"+name+"b"))
+				if !s2.Send(&wamp.Hello{Realm: "r1", Details: hello}) {
+					return
+				}
+				out.sess = s2
+				out.note = "came back with the cookie of its failed handshake"
+				m := recvWithin(s2, 3*time.Minute)
+				if _, ok := m.(*wamp.Challenge); ok {
+					s2.Send(&wamp.Authenticate{Signature: "no-idea", Extra: wamp.Dict{}})
+					m = recvWithin(s2, 3*time.Minute)
+				}
+				if wl, ok := m.(*wamp.Welcome); ok {
+					out.welcome = wl
+					s2.Welcome, s2.ID, s2.Joined = wl, wl.ID, true
+					s2.StartDrain()
+				} else if ab, ok := m.(*wamp.Abort); ok {
+					s2.Abort = ab
+				}
 			case 7: // anonymous with forged identity
 				c.Fault("adv_anonymous_forged_identity")
 				hello["authmethods"] = wamp.List{"anonymous"}
